@@ -24,10 +24,11 @@ def _varint_edges(maxlen, lo, hi):
 
 
 INTS = _varint_edges(5, INT_MIN, INT_MAX)
-LONGS = _varint_edges(10, LONG_MIN, LONG_MAX)
+LONGS = _varint_edges(10, LONG_MIN, LONG_MAX) + [1 << 31, -(1 << 31) - 1, (1 << 31) - 1, -(1 << 31), 1 << 32]
 FLOATS = [0.0, -0.0, 1.5, 0.1, -2.5, 2.0 ** -149, 3.4028234663852886e38, float("inf"), float("-inf"), float("nan"), 1, 16777217]
 DOUBLES = [0.0, -0.0, 1.5, 0.1, -2.5, 5e-324, 1.7976931348623157e308, float("inf"), float("-inf"), float("nan"), 1,
            9007199254740993, 2.0 ** -149]
+UNENCODABLE = ["\ud800", "ok\udc80", "\ud83d\ude00"]  # lone surrogates: not Unicode text, cannot be written as UTF-8
 STRINGS = ["", "a", "é", "€", "𝄞", "\x00", "a\nb\"\\", "x" * 63, "x" * 64, "é" * 32, "y" * 65, "€" * 2731, "z" * 8192]
 BYTESES = [b"", b"a", b"\x00", b"\xff\xfe", bytes(range(256)), b"q" * 63, b"q" * 64, b"q" * 65, b"r" * 8192, bytearray(b"ba")]
 LONG_N = (63, 64, 65)
